@@ -57,10 +57,26 @@ def ev_call(ex, e, st):
     return outs
 
 
+refset_card = Function('refset_card', RefSet, IntSort())        # number of elements of a finite set of heap objects
+
+
 def _sum_count(ex, g, st):
-    """sum(1 for v in X if v): the number of truthy items of X"""
+    """sum(1 for v in X if v): the number of truthy items of X;  sum(1 for v in X if v in Y) over sets of objects: |X & Y|"""
     if not (isinstance(g.elt, ast.Constant) and g.elt.value == 1 and len(g.generators) == 1): return None
     gen = g.generators[0]
+    if (len(gen.ifs) == 1 and isinstance(gen.target, ast.Name) and isinstance(gen.ifs[0], ast.Compare) and len(gen.ifs[0].ops) == 1
+            and isinstance(gen.ifs[0].ops[0], ast.In) and isinstance(gen.ifs[0].left, ast.Name) and gen.ifs[0].left.id == gen.target.id):
+        outs = []
+        for s1, vals in ex.evs([gen.iter, gen.ifs[0].comparators[0]], st):
+            if isinstance(vals, Raise): outs.append((s1, vals)); continue
+            X, Y = vals
+            if not (isinstance(X, PSet) and isinstance(Y, PSet) and X.ekind == 'ref' and Y.ekind == 'ref'): return None
+            y = fresh('y', IntSort())
+            n = refset_card(z3.Lambda([y], And(X.arr[y], Y.arr[y])))
+            A = Const('A!card', RefSet)
+            s1 = s1.copy(); s1.assume(n >= 0, ForAll([A], refset_card(A) >= 0))
+            outs.append((s1, ZV('int', n)))
+        return outs
     if not (len(gen.ifs) == 1 and isinstance(gen.ifs[0], ast.Name) and isinstance(gen.target, ast.Name) and gen.ifs[0].id == gen.target.id):
         return None
     outs = []
